@@ -147,7 +147,7 @@ impl Admin {
     { unimplemented!() }
     #[verifier::external_body]
     pub fn get(&self, deps: Deps) -> (r: StdResult<Option<Addr>>)
-        ensures r is Ok ==> r->Ok_0 == deps.storage.view().admin,
+        ensures r is Ok, r->Ok_0 == deps.storage.view().admin,
     { unimplemented!() }
     #[verifier::external_body]
     pub fn set(&self, deps: DepsMut, admin: Option<Addr>) -> (r: StdResult<()>)
@@ -164,12 +164,17 @@ impl Admin {
             r is Err ==> final(deps.storage).view() == old(deps.storage).view(),
     { unimplemented!() }
 }
+pub struct HooksResponse { pub hooks: Vec<String> }
 pub struct Hooks {}
 impl Hooks {
     pub const fn new(ns: &str) -> (r: Hooks) { Hooks {} }
     #[verifier::external_body]
     pub fn query_hook(&self, deps: Deps, hook: String) -> (r: StdResult<bool>)
         ensures r is Ok, r->Ok_0 == deps.storage.view().whitelist.contains(hook@),
+    { unimplemented!() }
+    #[verifier::external_body]
+    pub fn query_hooks(&self, deps: Deps) -> (r: StdResult<HooksResponse>)
+        ensures r is Ok,
     { unimplemented!() }
     // only `admin`'s holder may edit; add fails if present, remove fails if absent
     #[verifier::external_body]
@@ -202,6 +207,7 @@ pub open spec fn q_vamm_calc_fee(q: QuerierWrapper, vamm: Seq<char>, amount: Uin
 pub open spec fn q_vamm_over_spread(q: QuerierWrapper, vamm: Seq<char>) -> bool { query_answer::<bool>(q, smart(vamm, Payload::VammQOverSpread)) }
 pub open spec fn q_vamm_underlying_price(q: QuerierWrapper, vamm: Seq<char>) -> Uint128 { query_answer::<Uint128>(q, smart(vamm, Payload::VammQUnderlyingPrice)) }
 pub open spec fn q_vamm_over_fluctuation(q: QuerierWrapper, vamm: Seq<char>, d: Direction, amount: Uint128) -> bool { query_answer::<bool>(q, smart(vamm, Payload::VammQOverFluctuation { direction: d, base_asset_amount: amount })) }
+pub open spec fn q_insurance_all_vamm(q: QuerierWrapper, insurance: Seq<char>, limit: Option<u32>) -> AllVammResponse { query_answer::<AllVammResponse>(q, smart(insurance, Payload::FundQAllVamm { limit })) }
 pub open spec fn q_insurance_is_vamm(q: QuerierWrapper, insurance: Seq<char>, vamm: Seq<char>) -> bool { query_answer::<VammResponse>(q, smart(insurance, Payload::FundQIsVamm { vamm })).is_vamm }
 pub open spec fn q_token_balance(q: QuerierWrapper, token: AssetInfo, account: Seq<char>) -> Uint128 {
     match token {
